@@ -120,6 +120,7 @@ class MainstreamOrigin(Origin[VarType]):
             if "w" in init_conditions
             else engine.var(f"w_{self.name}")
         }
+        self.next_states = None  # any earlier step refers to the old variables
         self.actions: dict[str, VarType] = {
             "v_ctrl": init_conditions["v_ctrl"]
             if "v_ctrl" in init_conditions
@@ -286,6 +287,7 @@ class MeteredOnRamp(Origin[VarType]):
             if "w" in init_conditions
             else engine.var(f"w_{self.name}")
         }
+        self.next_states = None  # any earlier step refers to the old variables
         self.actions: dict[str, VarType] = {
             "r": init_conditions["r"]
             if "r" in init_conditions
